@@ -143,6 +143,22 @@ func oracle(c Case) *ev.Verdict {
 			return ev.V(c.Kind+":repetition:"+cls+":"+field, "repetition %d of the same input gives a different result at %q:\n%s\ninput: %s", i, field, d, describe(c))
 		}
 	}
+	// the same type and rule OBJECTS registered in a second and a third root schema object: same text,
+	// same user types and rules - same result
+	if c.Kind == "project" && !usesAllOf(c.Project) {
+		first := sut.Build(*c.Project)
+		r1 := sut.ObserveBuilt(first).Render()
+		for i := 0; i < 2; i++ {
+			r := sut.ObserveBuilt(sut.BuildSharing(*c.Project, first)).Render()
+			if r != r1 || r1 != base {
+				if r1 != base {
+					r = r1
+				}
+				field, d := firstDiff(base, r)
+				return ev.V("project:shared-objects:"+field, "root schema object %d built from the same type and rule objects gives a different result at %q:\n%s\ninput: %s", i+2, field, d, describe(c))
+			}
+		}
+	}
 	for _, perm := range c.Perms {
 		if r := render(c, perm); r != base {
 			field, d := firstDiff(base, r)
@@ -154,6 +170,19 @@ func oracle(c Case) *ev.Verdict {
 		}
 	}
 	return nil
+}
+
+// (allOf is compiled into the type object by the first root schema that uses it: C10 known finding)
+func usesAllOf(p *sut.Project) bool {
+	if strings.Contains(p.Root, "allOf") {
+		return true
+	}
+	for _, t := range p.Types {
+		if strings.Contains(t.Text, "allOf") {
+			return true
+		}
+	}
+	return false
 }
 
 func describe(c Case) string {
@@ -257,7 +286,7 @@ func crossProcess(t *testing.T, name string, cases []Case, renders []string) {
 func multiDefect(t *rapid.T, p *model.Project) {
 	n := rapid.IntRange(0, 3).Draw(t, "defects")
 	for i := 0; i < n; i++ {
-		switch rapid.IntRange(0, 7).Draw(t, "defect") {
+		switch rapid.IntRange(0, 8).Draw(t, "defect") {
 		case 5: // two types with the same text whose only defect sits in an unnamed (rule-set) type: same offsets, different files
 			p.Types = append(p.Types,
 				model.Type{Name: fmt.Sprintf("@ua%d", i), Node: model.Scalar("string", `"x"`, model.R("or", model.List(model.Set(model.R("type", model.Str("@unum")), model.R("nullable", model.Bool(true))), model.Set(model.R("type", model.Str("string"))))))},
@@ -277,6 +306,24 @@ func multiDefect(t *rapid.T, p *model.Project) {
 				model.Type{Name: fmt.Sprintf("@dupa%d", i), Node: model.Obj(model.R("allOf", model.Str(fmt.Sprintf("@dupb%d", i)))).Add("same", model.Scalar("integer", "1"))},
 				model.Type{Name: fmt.Sprintf("@dupb%d", i), Node: model.Obj().Add("same", model.Scalar("integer", "2"))},
 				model.Type{Name: fmt.Sprintf("@cyc%d", i), Node: model.Obj(model.R("allOf", model.Str(fmt.Sprintf("@cyc%d", i))))})
+		case 8: // several rules at once that do not go with the node's type: which one is named?
+			ty := rapid.SampledFrom([]string{"email", "uri", "uuid", "date", "datetime", "any", "string", "integer", "boolean", "null", "float", "decimal", "enum", "mixed", "object", "array"}).Draw(t, "souptype")
+			soup := rapid.SliceOfNDistinct(rapid.SampledFrom([]model.Rule{
+				model.R("minLength", model.Num("2")), model.R("maxLength", model.Num("256")), model.R("regex", model.Str("^.+$")), model.R("const", model.Bool(true)),
+				model.R("min", model.Num("1")), model.R("max", model.Num("9")), model.R("exclusiveMinimum", model.Bool(true)), model.R("exclusiveMaximum", model.Bool(false)), model.R("precision", model.Num("2")),
+				model.R("minItems", model.Num("0")), model.R("maxItems", model.Num("3")), model.R("additionalProperties", model.Bool(true)), model.R("nullable", model.Bool(true)),
+				model.R("enum", model.List(model.Str("user@example.com"), model.Num("5"))), model.R("allOf", model.Str("@s0")), model.R("or", model.List(model.Str("string"), model.Str("integer"))),
+			}), 2, 4, func(r model.Rule) string { return r.Name }).Draw(t, "soup")
+			lit := rapid.SampledFrom([]string{`"user@example.com"`, "5", "5.25", "true", "null"}).Draw(t, "souplit")
+			n := &model.Node{Kind: model.KindOfLit(lit), Lit: lit, Rules: append([]model.Rule{model.R("type", model.Str(ty))}, soup...)}
+			if rapid.Bool().Draw(t, "typelast") {
+				n.Rules = append(n.Rules[1:], n.Rules[0])
+			}
+			if p.Root.Kind == "object" && rapid.Bool().Draw(t, "soupinroot") {
+				p.Root.Add(fmt.Sprintf("soup%d", i), n)
+			} else {
+				p.Types = append(p.Types, model.Type{Name: fmt.Sprintf("@soup%d", i), Node: n})
+			}
 		case 0: // another broken type
 			name := fmt.Sprintf("@bad%d", i)
 			p.Types = append(p.Types, model.Type{Name: name, Node: model.Scalar("integer", "1", model.R("min", model.Num("2")))})
@@ -332,10 +379,12 @@ func genCase(t *rapid.T) Case {
 		gp.Types = types
 		sp = *gp
 	} else {
-		p := gen.Project(t, gen.ProjectOpts{RegexType: true, Container: true, KeyType: true})
+		p := gen.Project(t, gen.ProjectOpts{RegexType: true, Container: true, KeyType: true, EnumNotes: true})
 		multiDefect(t, p)
 		sp = p.Text(nil)
 	}
+	// who registers what: the root everything, or every schema the types it names itself
+	sp.Nest = rapid.IntRange(0, 2).Draw(t, "nest") == 0
 	c := Case{Kind: "project", Project: &sp}
 	n := len(sp.Types)
 	if n >= 2 {
@@ -388,6 +437,9 @@ func judged(c Case) *ev.Verdict {
 		j, _ := json.Marshal(c)
 		ev.NonTrivial("inputs", string(j))
 		ev.Class("inputs", "entry:"+c.Kind)
+		if c.Project != nil && c.Project.Nest {
+			ev.Class("inputs", "types registered on the types that name them")
+		}
 		if ev.WantSample("inputs") && c.Kind == "project" {
 			ev.Sample("inputs", c)
 		}
